@@ -138,6 +138,11 @@ def build_world() -> World:
     ax("T-depth", "forall[Node](lambda n: implies(n != None and n.parent != None, n.depth == n.parent.depth + 1), lambda n: n.parent.depth)", "bounded:StateNode.__init__ line `self.depth = parent.depth + 1 if parent else 0`")
     ax("T-depth-nonneg", "forall[Node](lambda n: implies(n != None, n.depth >= 0), lambda n: n.depth)", "lean:depth_nonneg")
     ax("T-anc-def", "forall[Node, Node](lambda n, a: anc(n, a) == (n != None and (n == a or anc(n.parent, a))), lambda n, a: anc(n, a))", "definition")
+    ax("T-anc-refl", "forall[Node](lambda n: implies(n != None, anc(n, n)), lambda n: anc(n, n))", "lean:anc_refl")
+    ax("T-anc-parent", "forall[Node](lambda n: implies(n != None and n.parent != None, anc(n, n.parent)), lambda n: n.parent)", "lean:anc_parent")
+    ax("T-anc-step", "forall[Node, Node](lambda n, a: implies(anc(n, a) and a.parent != None, anc(n, a.parent)), lambda n, a: (anc(n, a), a.parent))", "lean:anc_step")
+    ax("T-parent-neq", "forall[Node](lambda n: implies(n != None, n.parent != n), lambda n: n.parent)", "lean:parent_ne_self")
+    ax("T-root-unique", "forall[Node](lambda n: implies(n != None and n.parent == None, n == root), lambda n: n.parent)", "lean:root_unique")
     ax("T-anc-root", "forall[Node](lambda n: implies(n != None, anc(n, root)), lambda n: anc(n, root))", "bounded:every StateNode of a machine reaches the MachineNode by .parent")
     ax("T-anc-depth", "forall[Node, Node](lambda n, a: implies(anc(n, a), a != None and a.depth <= n.depth and implies(a.depth == n.depth, a == n)), lambda n, a: anc(n, a))", "lean:anc_depth")
     ax("T-anc-trans", "forall[Node, Node, Node](lambda n, a, b: implies(anc(n, a) and anc(a, b), anc(n, b)), lambda n, a, b: (anc(n, a), anc(a, b)))", "lean:anc_trans")
